@@ -43,6 +43,7 @@ type Spec struct {
 	Hosts      []string `json:"hosts,omitempty"`
 	Paths      []string `json:"paths,omitempty"`
 	Challenge  bool     `json:"challenge,omitempty"`
+	DefBackend bool     `json:"def_backend,omitempty"` // spec.defaultBackend is set (a minion's must never be rendered)
 	AuthSecret string   `json:"auth_secret,omitempty"` // Ingress: nginx.org/basic-auth-secret (the Secret never exists: a Configurator warning)
 	ExtraAnn   string   `json:"extra_ann,omitempty"`   // value of an innocuous annotation (changes without bumping generation)
 	// vs / vsr / ts
@@ -183,16 +184,17 @@ type LeaderObs struct {
 }
 
 type Case struct {
-	ID          int               `json:"id"`
-	TLS         bool              `json:"tls_passthrough"`
-	CertMgr     bool              `json:"cert_manager"`
-	Histories   []History         `json:"histories"`
-	Ctl         []CtlStep         `json:"ctl,omitempty"` // main history through LoadBalancerController.sync (with -ctl)
-	Leader      *LeaderObs        `json:"leader,omitempty"`
-	WeightProbe *k8s.VWeightProbe `json:"weight_probe,omitempty"`
-	WeightPend  *k8s.VWeightProbe `json:"weight_probe_pending,omitempty"`
-	PolicyProbe *PolicyProbeObs   `json:"policy_probe,omitempty"`
-	Error       string            `json:"error,omitempty"`
+	ID          int                `json:"id"`
+	TLS         bool               `json:"tls_passthrough"`
+	CertMgr     bool               `json:"cert_manager"`
+	Histories   []History          `json:"histories"`
+	Ctl         []CtlStep          `json:"ctl,omitempty"` // main history through LoadBalancerController.sync (with -ctl)
+	Leader      *LeaderObs         `json:"leader,omitempty"`
+	WeightProbe *k8s.VWeightProbe  `json:"weight_probe,omitempty"`
+	WeightPend  *k8s.VWeightProbe  `json:"weight_probe_pending,omitempty"`
+	WeightInv   []k8s.VWeightProbe `json:"weight_probe_invalid,omitempty"` // 2-way and 3-way split, weights edited to an invalid sum
+	PolicyProbe *PolicyProbeObs    `json:"policy_probe,omitempty"`
+	Error       string             `json:"error,omitempty"`
 }
 
 // ---------- building real objects ----------
@@ -241,6 +243,9 @@ func buildIngress(s Spec) *networking.Ingress {
 		ObjectMeta: metav1.ObjectMeta{Namespace: s.NS, Name: s.Name, UID: types.UID(s.UID), Generation: s.Gen,
 			CreationTimestamp: metav1.Unix(s.TS, 0), Annotations: ann, Labels: labels},
 		Spec: networking.IngressSpec{Rules: rules, IngressClassName: s.ClassField},
+	}
+	if s.DefBackend {
+		ing.Spec.DefaultBackend = &networking.IngressBackend{Service: &networking.IngressServiceBackend{Name: "svc", Port: networking.ServiceBackendPort{Number: 80}}}
 	}
 	return ing
 }
@@ -811,7 +816,7 @@ func (g *gen) listenerSeed() []Event {
 // nothing else happens in between: a resource that loses a contest is deleted and created again at once (state
 // cached per key must not survive the object); three minions contend for one path with key order different
 // from age order; an orphan route or minion is deleted and re-created.
-const nEpisodes = 14
+const nEpisodes = 16
 
 // episode: which < 0 picks one at random
 func (g *gen) episode(which int) []Event {
@@ -1059,6 +1064,40 @@ func (g *gen) episode(which int) []Event {
 			o.Host = h
 			up(o, "episode-capitals-corrected")
 		}
+	case 14:
+		// two cert-manager solver Ingresses for one host at once (two certificates being issued for the same name): the
+		// VirtualServer that owns the host serves both challenges; when one goes the other stays
+		if g.cm {
+			h := vh.Pick(r, hosts[:3])
+			v := mk("vs", "ns1", "a", stamps[0])
+			v.Host = h
+			up(v, "episode-vs")
+			c1 := mk("ing", "ns1", "c", stamps[1])
+			c1.IngKind, c1.Hosts, c1.Challenge, c1.Paths = "regular", []string{h}, true, []string{"/.well-known/acme-challenge/tok1"}
+			up(c1, "episode-challenge")
+			c2 := mk("ing", "a-b", "d", stamps[2])
+			c2.IngKind, c2.Hosts, c2.Challenge, c2.Paths = "regular", []string{h}, true, []string{"/.well-known/acme-challenge/tokB"}
+			up(c2, "episode-second-challenge-same-host")
+			if r.Bool() {
+				del(c1)
+			} else {
+				del(c2)
+			}
+		}
+	case 15:
+		// a minion that carries spec.defaultBackend (legal; "/" must never be generated for it) beside a minion that owns a path
+		h := vh.Pick(r, hosts[:3])
+		m := mk("ing", "ns1", "a", stamps[1])
+		m.IngKind, m.Hosts = "master", []string{h}
+		up(m, "episode-master")
+		a := mk("ing", "a-b", "a", stamps[0])
+		a.IngKind, a.Hosts, a.Paths, a.DefBackend = "minion", []string{h}, []string{"/a"}, true
+		a = up(a, "episode-minion-with-default-backend")
+		b := mk("ing", "a-b", "b", stamps[2])
+		b.IngKind, b.Hosts, b.Paths = "minion", []string{h}, []string{"/b"}
+		up(b, "episode-minion")
+		// render again: the same objects must give the same composition
+		up(a, "episode-minion-resync")
 	case 2:
 		// three minions on one path; the first in key order is the youngest
 		h := vh.Pick(r, hosts[:3])
@@ -1297,6 +1336,7 @@ func runCtl(c *Case, anns map[string]int) (err error) {
 	c.WeightProbe = &wp
 	wpp := v.WeightProbePending()
 	c.WeightPend = &wpp
+	c.WeightInv = []k8s.VWeightProbe{v.WeightProbeInvalid(2), v.WeightProbeInvalid(3)}
 	// a Policy in use moves to another class: the rule it contributed must leave the VirtualServer
 	pp := &PolicyProbeObs{}
 	if err := v.PolicyProbe(1, c.ID); err == nil {
